@@ -122,6 +122,42 @@ example :
     fixTok P v = [⟨9, .code, "a".toList⟩, crTok 5, blankTok 6] ∧ (crSeq (fixTok P v)).length = (crSeq v.toks).length + 1 := by
   decide +kernel
 
+/-! #### WP5b: previous_line, style require_comment, after the repo repair of `self.allow_comment` -/
+
+/-- **`_analyze_require_comment` cannot raise on a pair of regions** (what `_get_tokens_of_interest` hands it under
+    this style), for every class table, rule row and token content.  Before the repair the judgement of a second
+    region `[whitespace, comment]` was `.error .attributeError` (`self.allow_comment` does not exist) -/
+theorem vspace_requireComment_total (inst : Tok → Nat → Bool) (P : Params) (a b : Toi Tok) :
+    ∃ o, judgeRequireComment inst P (.pair a b) = .ok o := by
+  unfold judgeRequireComment
+  simp only [pure, Except.pure]
+  repeat (first | exact ⟨_, rfl⟩ | split)
+
+/-- comments that reach the beginning of the file — the line directly above the token and the line the
+    comment-skipping extractor hands out are both comment lines — are accepted: nothing is reported -/
+theorem vspace_requireComment_top_of_file (inst : Tok → Nat → Bool) (P : Params) (a b : Toi Tok)
+    (ha : commentStartsLine inst P a.toks = true) (hb : commentStartsLine inst P b.toks = true) :
+    judgeRequireComment inst P (.pair a b) = .ok none := by
+  unfold judgeRequireComment
+  simp only [pure, Except.pure, ha, hb, Bool.not_true, Bool.false_eq_true, if_false, if_true]
+  repeat (first | rfl | split)
+
+/-- the region pair of the former finding `previous_line / AttributeError` (`␣␣-- comment` in the first line, the
+    token in the second): both regions are `[whitespace, comment]`; and a code line above the comment block is
+    still answered with Insert -/
+example :
+    let P : Params := { family := .previous, cs := [], allow := [], style := sRequireComment, solution := solAboveInsert,
+                        crCls := 5, blCls := 6, wsCls := 4, commentCls := 7, pragmaCls := 8 }
+    let w : Tok := ⟨4, .ws, "  ".toList⟩
+    let k : Tok := ⟨7, .comment, "-- comment".toList⟩
+    let x : Tok := ⟨9, .code, "x".toList⟩
+    judge (fun t p => t.cls == p) P (.pair { start := some 0, line := 2, toks := [w, k] } { start := some 0, line := 2, toks := [w, k] })
+      = .ok none ∧
+    judge (fun t p => t.cls == p) P (.pair { start := some 2, line := 2, toks := [w, k] } { start := some 0, line := 1, toks := [x] })
+      = .ok (some ({ line := 1, start := 0, toks := [x], act := Act.insert.code }, solAboveInsert)) := by
+  decide +kernel
+
+
 /-! ### END wp2_bfull2 -/
 
 /-! ### BEGIN wp2b_affix -/
